@@ -1,6 +1,7 @@
 """Kernel = one real function under contract.  A contract module subclasses
 Kernel, builds the symbolic pre-state in `setup`, and states `post` /
 `post_exc`; loop invariants are LoopSpec objects keyed by loop ordinal."""
+import os
 import time
 import traceback
 
@@ -248,7 +249,39 @@ class Kernel:
                     fn = cands[0]
             if fn is not None:
                 return lambda I, args, n, fn=fn: self.run_inline(I, fn, None, args)
+        fn = self.auto_inline_candidate(name)
+        if fn is not None:
+            return lambda I, args, n, fn=fn: self.run_inline(I, fn, None, args)
         return None
+
+    auto_inline = True
+
+    def auto_inline_candidate(self, name):
+        """a helper the contract does not know, defined in the kernel's own translation unit file (typically a function
+        extracted by a refactoring): executed in place like the rest of the body.  Library and header functions are not
+        touched -- they stay unclassified (a gap) unless the contract models them."""
+        if not self.auto_inline or not name or name.startswith("operator") or self.tu.startswith("gen:"):
+            return None
+        cache = self.__dict__.setdefault("_auto_inline_cache", {})
+        if name in cache:
+            return cache[name]
+        cache[name] = None
+        try:
+            objs = extract.dump(self.tu, name)
+            extract.annotate_files(objs)
+        except Exception:
+            return None
+        tu_file = os.path.join(extract.REPO, self.tu)
+        cands = []
+        for fn in extract.find_functions(objs, name):
+            src = extract.fn_source(fn)
+            if src and os.path.join(extract.REPO, src["file"]) == tu_file:
+                cands.append(fn)
+        if len(cands) == 1:
+            self.index(objs)
+            cache[name] = cands[0]
+            self.notes_auto_inlined = getattr(self, "notes_auto_inlined", []) + [name]
+        return cache[name]
 
     def ctor_handler(self, qt, node):
         h = self.ctors.get(qt)
